@@ -35,6 +35,7 @@ type behaviour struct {
 	Comps     []compSpec     `json:"comps"`
 	Fail      failSpec       `json:"fail"`
 	Chain     [][]string     `json:"chain"`
+	Late      []int          `json:"late"`
 	Log       [][]any        `json:"log"`
 	StartErr  string         `json:"startErr"`
 	CloseErrs []int          `json:"closeErrs"`
@@ -233,17 +234,32 @@ type named struct {
 func (n *named) Init(a *app.App) error { return nil }
 func (n *named) Name() string           { return n.name }
 
-func checkLookup(chain [][]string, resolve map[string]int) (string, string) {
-	// chain[0] = container under test, chain[k] = k-th parent
+func checkLookup(chain [][]string, late []int, resolve map[string]int) (string, string) {
+	// chain[0] = container under test, chain[k] = k-th parent; level numbers are 1-based.
+	// Levels in `late` register their components only after their child container was created.
+	isLate := map[int]bool{}
+	for _, l := range late {
+		isLate[l] = true
+	}
 	apps := make([]*app.App, len(chain))
+	reg := func(k int) {
+		for _, nm := range chain[k] {
+			apps[k].Register(&named{name: nm, level: k + 1})
+		}
+	}
 	for k := len(chain) - 1; k >= 0; k-- {
 		if k == len(chain)-1 {
 			apps[k] = new(app.App)
 		} else {
 			apps[k] = apps[k+1].ChildApp()
 		}
-		for _, nm := range chain[k] {
-			apps[k].Register(&named{name: nm, level: k + 1})
+		if !isLate[k+1] {
+			reg(k)
+		}
+	}
+	for k := len(chain) - 1; k >= 0; k-- {
+		if isLate[k+1] {
+			reg(k)
 		}
 	}
 	for nm, want := range resolve {
@@ -253,7 +269,7 @@ func checkLookup(chain [][]string, resolve map[string]int) (string, string) {
 			got = c.(*named).level
 		}
 		if got != want {
-			return "lookup-order", fmt.Sprintf("Component(%q) resolved at level %d, want %d (chain %v)", nm, got, want, chain)
+			return "lookup-order", fmt.Sprintf("Component(%q) resolved at level %d, want %d (chain %v, late %v)", nm, got, want, chain, late)
 		}
 		// MustComponent panics exactly when nothing resolves
 		panicked := func() (p bool) {
@@ -275,7 +291,15 @@ func checkLookup(chain [][]string, resolve map[string]int) (string, string) {
 		}
 	}
 	if (err != nil) != (wantLevel == 0) || (err == nil && v.level != wantLevel) {
-		return "generic-lookup-order", fmt.Sprintf("GetComponent found level %v err %v, want level %d", v, err, wantLevel)
+		return "generic-lookup-order", fmt.Sprintf("GetComponent found level %v err %v, want level %d (chain %v, late %v)", v, err, wantLevel, chain, late)
+	}
+	// ComponentNames: local names first, then each parent's, nearest first
+	var wantNames []string
+	for k := range chain {
+		wantNames = append(wantNames, chain[k]...)
+	}
+	if got := apps[0].ComponentNames(); fmt.Sprint(got) != fmt.Sprint(wantNames) && (len(got) > 0 || len(wantNames) > 0) {
+		return "component-names", fmt.Sprintf("ComponentNames %v, want %v (chain %v, late %v)", got, wantNames, chain, late)
 	}
 	return "", ""
 }
@@ -309,7 +333,7 @@ func TestReplay(t *testing.T) {
 		t.Fatal("no behaviours")
 	}
 	for _, b := range bs {
-		key := fmt.Sprintf("%v|%v|%v", b.Comps, b.Fail, b.Chain)
+		key := fmt.Sprintf("%v|%v|%v|%v", b.Comps, b.Fail, b.Chain, b.Late)
 		rep.Case(key)
 		rep.AddReplayed(1)
 		parents := len(b.Chain) - 1
@@ -329,10 +353,10 @@ func TestReplay(t *testing.T) {
 		if (startErr == nil) != (b.StartErr == "none") {
 			rep.DriftNote("start error %v, spec %s", startErr, b.StartErr)
 		}
-		if k, d := checkLookup(b.Chain, b.Resolve); k != "" {
+		if k, d := checkLookup(b.Chain, b.Late, b.Resolve); k != "" {
 			rep.Violate(k, d, b)
 		}
-		rep.Sample(map[string]any{"comps": b.Comps, "fail": b.Fail, "chain": b.Chain, "observed_log": fmt.Sprint(calls)})
+		rep.Sample(map[string]any{"comps": b.Comps, "fail": b.Fail, "chain": b.Chain, "late": b.Late, "observed_log": fmt.Sprint(calls)})
 	}
 }
 
